@@ -66,6 +66,9 @@ func genC11(r *simrt.RNG) *Case {
 	}
 	pl.Concurrent = r.Intn(4) == 0
 	nc := r.Range(1, 4)
+	if r.Intn(12) == 0 {
+		nc = r.Range(5, 9) // state that only goes wrong after several cycles
+	}
 	if pl.Chunk == 100 {
 		nc = r.Range(1, 2)
 	}
@@ -195,7 +198,7 @@ func shrinkMorass(c *Case) []*Case {
 
 func genC12(r *simrt.RNG) *Case {
 	pl := MorassPlan{
-		Chunk:      r.Pick(1, 2, 2, 3, 4, 8),
+		Chunk:      r.Pick(1, 2, 2, 3, 4, 8, 16),
 		Concurrent: true,
 		Struct:     r.Bool(),
 		CleanUp:    true,
@@ -210,11 +213,20 @@ func genC12(r *simrt.RNG) *Case {
 	case 1:
 		n = pl.Chunk*r.Range(1, 5) + 1 // short last chunk
 	}
+	if r.Intn(10) == 0 && pl.Chunk <= 4 {
+		n = pl.Chunk*r.Range(7, 14) + r.Intn(pl.Chunk+1) // many chunks: pool and hand-off channel cycle several times
+	}
 	pl.Cycles = []MCycle{{Keys: genKeys(r, n), Drain: -1}}
 	if r.Intn(6) == 0 {
-		// a second cycle on the same sorter
-		pl.Cycles[0].ExtraClear = true
-		pl.Cycles = append(pl.Cycles, MCycle{Keys: genKeys(r, r.Intn(4*pl.Chunk+1)), Drain: -1})
+		// further cycles on the same sorter
+		for k := r.Range(1, 3); k > 0; k-- {
+			last := &pl.Cycles[len(pl.Cycles)-1]
+			if r.Intn(3) == 0 && len(last.Keys) > 0 {
+				last.Drain = r.Intn(len(last.Keys)) // partial drain before Clear
+			}
+			pl.Cycles = append(pl.Cycles, MCycle{Keys: genKeys(r, r.Intn(4*pl.Chunk+1)), Drain: -1})
+		}
+		pl.AutoClear = r.Intn(3) == 0
 	}
 	return &Case{Prop: "C12", Kind: "morass-concurrent", Plan: marshalPlan(pl),
 		Sched: PickStrategy(r, 60+12*n, []string{morassWriterSite}, []string{"finalise-enter", "finalised"})}
@@ -235,7 +247,15 @@ func genC13Fault(r *simrt.RNG) *Case {
 		pl.Payload = r.Pick(0, 32, 700)
 	}
 	n := pl.Chunk*r.Range(1, 4) + r.Intn(pl.Chunk+1)
+	if r.Intn(8) == 0 {
+		n = r.Intn(pl.Chunk) // in-memory only: faults can only hit New
+	}
 	pl.Cycles = []MCycle{{Keys: genKeys(r, n), Drain: -1}}
+	if r.Intn(5) == 0 {
+		// a fault in the second cycle of a reused sorter
+		pl.Cycles = append([]MCycle{{Keys: genKeys(r, r.Intn(3*pl.Chunk+1)), Drain: -1}}, pl.Cycles...)
+		pl.AutoClear = r.Bool()
+	}
 	c := &Case{Prop: "C13", Kind: "morass-fault", Plan: marshalPlan(pl)}
 	if pl.Concurrent {
 		c.Sched = PickStrategy(r, 60+12*n, []string{morassWriterSite}, []string{"finalise-enter"})
